@@ -1156,6 +1156,9 @@ impl InstrFormat for OldeEclHooks {
     }
 
     fn write_instr(&self, f: &mut BinWriter, emitter: &dyn Emitter, instr: &RawInstr) -> WriteResult {
+        if instr.opcode == 0xFFFF {
+            return Err(emitter.as_sized().emit(error!("opcode 65535 is reserved for the end-of-script marker")));
+        }
         f.write_i32(instr.time)?;
         f.write_u16(instr.opcode)?;
         f.write_i16(llir::fit_instr_field(emitter, "size", self.instr_size(instr))?)?;
@@ -1229,7 +1232,7 @@ impl InstrFormat for TimelineFormat06 {
         f.write_i16(llir::fit_instr_field(emitter, "time", instr.time)?)?;
         f.write_i16(instr.extra_arg.unwrap_or(0) as _)?;
         f.write_u16(instr.opcode)?;
-        f.write_u16(llir::fit_instr_field(emitter, "size", self.instr_size(instr))?)?;
+        f.write_i16(llir::fit_instr_field(emitter, "size", self.instr_size(instr))?)?;  // (the reader reads it as signed)
         f.write_all(&instr.args_blob)?;
         Ok(())
     }
